@@ -25,6 +25,7 @@
 #include <errno.h>
 #include <pthread.h>
 #include <sys/mman.h>
+#include <sys/time.h>
 #include <sys/wait.h>
 
 /* ------------------------------------------------------------------ 1 */
@@ -650,6 +651,13 @@ enum { VF_OK = 0, VF_EXIT, VF_SIGNAL, VF_ASAN, VF_TIMEOUT, VF_FAULT };
 typedef void (*vf_case_fn)(long idx, void *ctx);
 typedef void (*vf_death_fn)(long idx, int kind, int code, const char *note, void *ctx);
 static void vf_alarm(int s) { (void)s; _exit(97); }
+/* per-case limit: timeout_s seconds of CPU time of this process (all threads), 30 x that of wall-clock time */
+static void vf_case_timer2(int cpu_s, int wall_s) {
+    struct itimerval it = { { 0, 0 }, { cpu_s, 0 } };
+    signal(SIGPROF, vf_alarm); signal(SIGALRM, vf_alarm);
+    setitimer(ITIMER_PROF, &it, NULL); alarm(wall_s);
+}
+static void vf_case_timer(int timeout_s) { vf_case_timer2(timeout_s, timeout_s * 30); }
 static void vf_run_isolated(long lo, long hi, vf_case_fn fn, vf_death_fn on_death, void *ctx, int timeout_s) {
     if (!vf_sh) vf_sh = mmap(NULL, sizeof *vf_sh, PROT_READ | PROT_WRITE, MAP_SHARED | MAP_ANONYMOUS, -1, 0);
     long next = lo;
@@ -659,7 +667,9 @@ static void vf_run_isolated(long lo, long hi, vf_case_fn fn, vf_death_fn on_deat
         pid_t pid = fork();
         if (pid == 0) {
             signal(SIGALRM, vf_alarm); vf_install_fault_handlers();
-            for (long i = next; i < hi; i++) { vf_sh->cur = i; alarm(timeout_s); fn(i, ctx); }
+            /* the per-case limit is CPU time of the child (ITIMER_PROF: an endless loop burns it, a loaded machine does not), with a
+               generous wall-clock limit behind it for a case that blocks without using the CPU */
+            for (long i = next; i < hi; i++) { vf_sh->cur = i; vf_case_timer(timeout_s); fn(i, ctx); }
             vf_sh->done = 1; fflush(NULL); _exit(0);
         }
         int st = 0; waitpid(pid, &st, 0); vf_last_child = pid;
